@@ -35,6 +35,11 @@ def hostile_char(rng):
     if r == 6:
         c = rng.range(0x80, 0xFFFF)
         return chr(c) if not (0xD800 <= c <= 0xDFFF) else "x"
+    if r == 7:
+        # whole XML tokens typed as text: they must come back as the characters typed, not as what they would denote
+        return rng.choice(["&#60;", "&#x3c;", "&#0;", "&#7;", "&#xFFFE;", "&#+65;", "&lt;", "&amp;", "&quot;", "&#38;#60;", "&#x0;",
+                           "&#1114112;", "<![CDATA[", "]]>", "<!--", "-->", "<?x?>", "&#", "&#;", "&#x;", "&#65", "&#x41;", "&apos;",
+                           "&#9;", "&#10;", "&#13;", "&#32;"])
     return rng.choice(SAFE_LABEL)
 
 
